@@ -43,7 +43,7 @@ Lemma verif_target_consumed keep s k m cn ch s1 c1 ar :
   pending (pend_c0 cn) = Some ch /\ pending c1 = None /\ next_nonce s1 = next_nonce s.
 Proof.
   intros Hc Hv Har. unfold verif_target in Hv. rewrite Hc in Hv.
-  destruct (black s (c_addr cn)) eqn:Hb; [discriminate|].
+  destruct (blocked s (c_addr cn)) eqn:Hb; [discriminate|].
   destruct (banned s (c_addr cn)) eqn:Hn; [discriminate|]. cbn [orb] in Hv.
   destruct ((h_cid m =? 0) && (rl_deny s || h_new m)) eqn:H0; [discriminate|].
   destruct (clients s (h_cid m)) as [cl|] eqn:Hcl; [|discriminate].
@@ -137,6 +137,7 @@ Proof.
       * right. injection H as <-. lia.
       * discriminate.
     + destruct (Ho k' Hne) as [E|E]; rewrite E in H; [left; exact H|discriminate].
+  - (* ERestart *) split; [destruct lapsed; cbn; lia|intros k' n H; destruct lapsed; discriminate].
   - (* EExpire *) destruct (clients s x); split; try (cbn; lia); intros k' n H; left; exact H.
   - (* EDelAnon *) destruct (v_anon_delete v); split; try (cbn; lia); intros k' n H; left; exact H.
   - (* ERekey *) unfold rekey. destruct (clients s x); split; try (cbn; lia); intros k' n H; left; exact H.
@@ -171,6 +172,7 @@ Proof.
            destruct (N.eq_dec k1 k) as [->|Hn1];
            [ destruct (Ho k2 (not_eq_sym Hne)) as [E|E]; rewrite E in Hb; [specialize (H1 _ _ Hb); lia|discriminate]
            | destruct (Ho k1 Hn1) as [E|E]; rewrite E in Ha; [specialize (H1 _ _ Ha); lia|discriminate] ]).
+      all: try (destruct lapsed; discriminate Ha).
       all: try (destruct (clients s x); specialize (H1 _ _ Ha); lia).
       all: try (destruct (v_anon_delete v); specialize (H1 _ _ Ha); lia).
       all: try (unfold rekey in Ha; destruct (clients s x); specialize (H1 _ _ Ha); lia).
@@ -189,7 +191,7 @@ Definition avail (s : srv) (ch : N) : Prop := (exists k, pending_of s k = Some c
 Lemma verif_target_pending s k m ch : verif_target s k m = Some ch -> pending_of s k = Some ch.
 Proof.
   unfold verif_target, pending_of. destruct (conns s k) as [cn|]; [|discriminate].
-  destruct (black s (c_addr cn) || banned s (c_addr cn)); [discriminate|].
+  destruct (blocked s (c_addr cn) || banned s (c_addr cn)); [discriminate|].
   destruct ((h_cid m =? 0) && (rl_deny s || h_new m)); [discriminate|].
   destruct (clients s (h_cid m)) as [cl|]; [|discriminate]. destruct (expired cl); [discriminate|].
   destruct (h_resp m); [|discriminate]. auto.
